@@ -312,14 +312,24 @@ fn d_seal_open(o: &Ops, w: &[u8]) -> Opened {
 }
 
 // ---------------------------------------------------------------------------- object API, generic over containers
+/// fixed-length containers built from a slice of the right length
+pub trait Mk { fn mk(b: &[u8]) -> Self; }
+impl<const N: usize> Mk for StackByteArray<N> { fn mk(b: &[u8]) -> Self { Self::try_from(b).unwrap() } }
+impl<const N: usize> Mk for [u8; N] { fn mk(b: &[u8]) -> Self { <[u8; N]>::try_from(b).unwrap() } }
+#[cfg(feature = "nightly")]
+impl<const N: usize> Mk for dryoc::protected::HeapByteArray<N> { fn mk(b: &[u8]) -> Self { Self::try_from(b).unwrap() } }
+#[cfg(feature = "nightly")]
+impl<const N: usize> Mk for dryoc::protected::Locked<dryoc::protected::HeapByteArray<N>> {
+    fn mk(b: &[u8]) -> Self { use dryoc::protected::NewLockedFromSlice; dryoc::protected::HeapByteArray::<N>::from_slice_into_locked(b).unwrap() }
+}
 macro_rules! obj_variants {
     ($modname:ident, $mac:ty, $data:ty, $key:ty, $nonce:ty, $pk:ty, $out:ty) => {
         pub mod $modname {
             use super::*;
-            fn key(o: &Ops) -> $key { <$key>::try_from(&o.key[..]).unwrap() }
-            fn nonce(o: &Ops) -> $nonce { <$nonce>::try_from(&o.nonce[..]).unwrap() }
-            fn k32(b: &[u8; 32]) -> $key { <$key>::try_from(&b[..]).unwrap() }
-            fn pk(b: &[u8; 32]) -> $pk { <$pk>::try_from(&b[..]).unwrap() }
+            fn key(o: &Ops) -> $key { <$key as Mk>::mk(&o.key[..]) }
+            fn nonce(o: &Ops) -> $nonce { <$nonce as Mk>::mk(&o.nonce[..]) }
+            fn k32(b: &[u8; 32]) -> $key { <$key as Mk>::mk(&b[..]) }
+            fn pk(b: &[u8; 32]) -> $pk { <$pk as Mk>::mk(&b[..]) }
             pub fn sb_to_bytes(o: &Ops) -> Result<Vec<u8>, String> {
                 let b: DryocSecretBox<$mac, $data> = DryocSecretBox::encrypt(&o.msg, &nonce(o), &key(o));
                 let v: $out = b.to_bytes();
@@ -335,7 +345,7 @@ macro_rules! obj_variants {
                 Ok([t.as_slice(), d.as_slice()].concat())
             }
             pub fn sb_open_parts(o: &Ops, w: &[u8]) -> Opened {
-                let t = <$mac>::try_from(&w[..MAC]).unwrap();
+                let t = <$mac as Mk>::mk(&w[..MAC]);
                 let mut d = <$data>::new_bytes();
                 d.resize(w.len() - MAC, 0);
                 d.as_mut_slice().copy_from_slice(&w[MAC..]);
@@ -365,7 +375,7 @@ macro_rules! obj_variants {
                 Ok(v.as_slice().to_vec())
             }
             pub fn db_open_parts(o: &Ops, w: &[u8]) -> Opened {
-                let t = <$mac>::try_from(&w[..MAC]).unwrap();
+                let t = <$mac as Mk>::mk(&w[..MAC]);
                 let mut d = <$data>::new_bytes();
                 d.resize(w.len() - MAC, 0);
                 d.as_mut_slice().copy_from_slice(&w[MAC..]);
@@ -373,7 +383,7 @@ macro_rules! obj_variants {
                 obj::<$out>(b.decrypt(&nonce(o), &pk(&o.spk), &k32(&o.rsk)))
             }
             pub fn db_open_parts_precalc(o: &Ops, w: &[u8]) -> Opened {
-                let t = <$mac>::try_from(&w[..MAC]).unwrap();
+                let t = <$mac as Mk>::mk(&w[..MAC]);
                 let mut d = <$data>::new_bytes();
                 d.resize(w.len() - MAC, 0);
                 d.as_mut_slice().copy_from_slice(&w[MAC..]);
@@ -384,7 +394,7 @@ macro_rules! obj_variants {
             pub fn db_unseal_parts(o: &Ops, w: &[u8]) -> Opened {
                 if w.len() < SEAL { return Opened { ok: false, msg: vec![], leak: None }; }
                 let e = pk(&arr32(w));
-                let t = <$mac>::try_from(&w[PKB..SEAL]).unwrap();
+                let t = <$mac as Mk>::mk(&w[PKB..SEAL]);
                 let mut d = <$data>::new_bytes();
                 d.resize(w.len() - SEAL, 0);
                 d.as_mut_slice().copy_from_slice(&w[SEAL..]);
@@ -403,6 +413,55 @@ obj_variants!(arrvec, [u8; 16], Vec<u8>, [u8; 32], [u8; 24], [u8; 32], Vec<u8>);
 #[cfg(feature = "nightly")]
 obj_variants!(heap, dryoc::protected::HeapByteArray<16>, dryoc::protected::HeapBytes, dryoc::protected::HeapByteArray<32>,
               dryoc::protected::HeapByteArray<24>, dryoc::protected::HeapByteArray<32>, dryoc::protected::HeapBytes);
+
+#[cfg(feature = "nightly")]
+obj_variants!(locked, dryoc::protected::Locked<dryoc::protected::HeapByteArray<16>>, dryoc::protected::LockedBytes,
+              dryoc::protected::Locked<dryoc::protected::HeapByteArray<32>>, dryoc::protected::Locked<dryoc::protected::HeapByteArray<24>>,
+              dryoc::protected::Locked<dryoc::protected::HeapByteArray<32>>, dryoc::protected::LockedBytes);
+
+// precomputed keys held in locked memory (nightly): PrecalcSecretKey::precalculate_locked / _readonly_locked,
+// KeyPair::precalculate_locked / _readonly_locked
+#[cfg(feature = "nightly")]
+mod lockedpre {
+    use super::*;
+    use dryoc::protected::{HeapByteArray, Locked, LockedRO, NewLockedFromSlice};
+    type LK = Locked<HeapByteArray<32>>;
+    fn lk(b: &[u8; 32]) -> LK { HeapByteArray::<32>::from_slice_into_locked(b).unwrap() }
+    fn enc<P: dryoc::types::ByteArray<32> + zeroize::Zeroize>(o: &Ops, pre: &P) -> Result<Vec<u8>, String> {
+        let b: DryocBox<S32, S16, Vec<u8>> = DryocBox::precalc_encrypt(&o.msg, &S24::from(&o.nonce), pre).map_err(es)?;
+        Ok(b.to_vec())
+    }
+    fn open<P: dryoc::types::ByteArray<32> + zeroize::Zeroize>(o: &Ops, w: &[u8], pre: &P) -> Opened {
+        let b: DryocBox<S32, S16, Vec<u8>> = DryocBox::from_parts(S16::from(&arr16(w)), w[MAC..].to_vec(), None);
+        obj::<Vec<u8>>(b.precalc_decrypt(&S24::from(&o.nonce), pre))
+    }
+    pub fn enc_precalc_locked(o: &Ops) -> Result<Vec<u8>, String> {
+        let pre = PrecalcSecretKey::precalculate_locked(&S32::from(&o.rpk), &lk(&o.ssk)).map_err(|e| format!("{:?}", e))?;
+        enc(o, &pre)
+    }
+    pub fn enc_precalc_ro_locked(o: &Ops) -> Result<Vec<u8>, String> {
+        let pre = PrecalcSecretKey::precalculate_readonly_locked(&S32::from(&o.rpk), &lk(&o.ssk)).map_err(|e| format!("{:?}", e))?;
+        enc(o, &pre)
+    }
+    pub fn enc_keypair_precalc_locked(o: &Ops) -> Result<Vec<u8>, String> {
+        let kp: KeyPair<LK, LK> = KeyPair { public_key: lk(&o.spk), secret_key: lk(&o.ssk) };
+        let pre = kp.precalculate_locked(&S32::from(&o.rpk)).map_err(|e| format!("{:?}", e))?;
+        enc(o, &pre)
+    }
+    pub fn enc_keypair_precalc_ro_locked(o: &Ops) -> Result<Vec<u8>, String> {
+        let kp: KeyPair<LockedRO<HeapByteArray<32>>, LockedRO<HeapByteArray<32>>> = KeyPair {
+            public_key: HeapByteArray::<32>::from_slice_into_readonly_locked(&o.spk).unwrap(),
+            secret_key: HeapByteArray::<32>::from_slice_into_readonly_locked(&o.ssk).unwrap() };
+        let pre = kp.precalculate_readonly_locked(&S32::from(&o.rpk)).map_err(|e| format!("{:?}", e))?;
+        enc(o, &pre)
+    }
+    pub fn open_precalc_locked(o: &Ops, w: &[u8]) -> Opened {
+        match PrecalcSecretKey::precalculate_locked(&S32::from(&o.spk), &lk(&o.rsk)) { Ok(pre) => open(o, w, &pre), Err(_) => Opened { ok: false, msg: vec![], leak: None } }
+    }
+    pub fn open_precalc_ro_locked(o: &Ops, w: &[u8]) -> Opened {
+        match PrecalcSecretKey::precalculate_readonly_locked(&S32::from(&o.spk), &lk(&o.rsk)) { Ok(pre) => open(o, w, &pre), Err(_) => Opened { ok: false, msg: vec![], leak: None } }
+    }
+}
 
 // object API forms that exist for the Vec box only, or parse from a byte slice
 fn o_sb_into_vec(o: &Ops) -> Result<Vec<u8>, String> {
@@ -489,11 +548,16 @@ pub fn enc_impls(cons: &str, v: &str) -> Vec<(&'static str, EncFn)> {
     };
     #[cfg(feature = "nightly")]
     match (cons, v) {
-        ("secretbox", "obj_to_bytes") => r.push(("DryocSecretBox<Heap,HeapBytes>::encrypt+to_bytes", heap::sb_to_bytes)),
-        ("secretbox", "obj_parts") => r.push(("DryocSecretBox<Heap,HeapBytes>::encrypt+into_parts", heap::sb_parts)),
-        ("box", "obj_to_bytes") => { r.push(("DryocBox<Heap,HeapBytes>::encrypt+to_bytes", heap::db_to_bytes)); r.push(("DryocBox<Heap,HeapBytes>::precalc_encrypt+to_bytes", heap::db_precalc_to_bytes)); }
-        ("box", "obj_parts") => r.push(("DryocBox<Heap,HeapBytes>::encrypt+into_parts", heap::db_parts)),
-        ("seal", "obj_seal") => r.push(("DryocBox<Heap,HeapBytes>::seal+to_bytes", heap::db_seal_to_bytes)),
+        ("secretbox", "obj_to_bytes") => { r.push(("DryocSecretBox<Heap,HeapBytes>::encrypt+to_bytes", heap::sb_to_bytes)); r.push(("DryocSecretBox<Locked,LockedBytes>::encrypt+to_bytes", locked::sb_to_bytes)); }
+        ("secretbox", "obj_parts") => { r.push(("DryocSecretBox<Heap,HeapBytes>::encrypt+into_parts", heap::sb_parts)); r.push(("DryocSecretBox<Locked,LockedBytes>::encrypt+into_parts", locked::sb_parts)); }
+        ("box", "obj_to_bytes") => { r.push(("DryocBox<Heap,HeapBytes>::encrypt+to_bytes", heap::db_to_bytes)); r.push(("DryocBox<Heap,HeapBytes>::precalc_encrypt+to_bytes", heap::db_precalc_to_bytes));
+                                     r.push(("DryocBox<Locked,LockedBytes>::encrypt+to_bytes", locked::db_to_bytes)); r.push(("DryocBox<Locked,LockedBytes>::precalc_encrypt+to_bytes", locked::db_precalc_to_bytes));
+                                     r.push(("PrecalcSecretKey::precalculate_locked+precalc_encrypt", lockedpre::enc_precalc_locked));
+                                     r.push(("PrecalcSecretKey::precalculate_readonly_locked+precalc_encrypt", lockedpre::enc_precalc_ro_locked));
+                                     r.push(("KeyPair<Locked>::precalculate_locked+precalc_encrypt", lockedpre::enc_keypair_precalc_locked));
+                                     r.push(("KeyPair<LockedRO>::precalculate_readonly_locked+precalc_encrypt", lockedpre::enc_keypair_precalc_ro_locked)); }
+        ("box", "obj_parts") => { r.push(("DryocBox<Heap,HeapBytes>::encrypt+into_parts", heap::db_parts)); r.push(("DryocBox<Locked,LockedBytes>::encrypt+into_parts", locked::db_parts)); }
+        ("seal", "obj_seal") => { r.push(("DryocBox<Heap,HeapBytes>::seal+to_bytes", heap::db_seal_to_bytes)); r.push(("DryocBox<Locked,LockedBytes>::seal+to_bytes", locked::db_seal_to_bytes)); }
         _ => {}
     }
     r.retain(|_| true);
@@ -523,9 +587,12 @@ pub fn open_impls(cons: &str, u: &str) -> Vec<(&'static str, OpenFn)> {
     };
     #[cfg(feature = "nightly")]
     match (cons, u) {
-        ("secretbox", "obj_parts") => r.push(("DryocSecretBox<Heap,HeapBytes>::from_parts+decrypt", heap::sb_open_parts)),
-        ("box", "obj_parts") => { r.push(("DryocBox<Heap,HeapBytes>::from_parts+decrypt", heap::db_open_parts)); r.push(("DryocBox<Heap,HeapBytes>::from_parts+precalc_decrypt", heap::db_open_parts_precalc)); }
-        ("seal", "obj_unseal") => r.push(("DryocBox<Heap,HeapBytes>::from_parts+unseal", heap::db_unseal_parts)),
+        ("secretbox", "obj_parts") => { r.push(("DryocSecretBox<Heap,HeapBytes>::from_parts+decrypt", heap::sb_open_parts)); r.push(("DryocSecretBox<Locked,LockedBytes>::from_parts+decrypt", locked::sb_open_parts)); }
+        ("box", "obj_parts") => { r.push(("DryocBox<Heap,HeapBytes>::from_parts+decrypt", heap::db_open_parts)); r.push(("DryocBox<Heap,HeapBytes>::from_parts+precalc_decrypt", heap::db_open_parts_precalc));
+                                  r.push(("DryocBox<Locked,LockedBytes>::from_parts+decrypt", locked::db_open_parts)); r.push(("DryocBox<Locked,LockedBytes>::from_parts+precalc_decrypt", locked::db_open_parts_precalc));
+                                  r.push(("PrecalcSecretKey::precalculate_locked+precalc_decrypt", lockedpre::open_precalc_locked));
+                                  r.push(("PrecalcSecretKey::precalculate_readonly_locked+precalc_decrypt", lockedpre::open_precalc_ro_locked)); }
+        ("seal", "obj_unseal") => { r.push(("DryocBox<Heap,HeapBytes>::from_parts+unseal", heap::db_unseal_parts)); r.push(("DryocBox<Locked,LockedBytes>::from_parts+unseal", locked::db_unseal_parts)); }
         _ => {}
     }
     r.retain(|_| true);
